@@ -38,7 +38,7 @@ typedef struct { int n; op_t ops[MAXOPS]; } prog_t;
 typedef struct {
     int id, threads, queue, K, nbodies; prog_t progs[MAXCL]; prog_t bodies[MAXJOBS];
     int policy; unsigned long long seed; int stay; int sched_len; int sched_t[ZV_MAXSTEPS]; int sched_w[ZV_MAXSTEPS];
-    int explore; long maxruns;
+    int explore; long maxruns; int fault, cfail, afail;
     char progs_s[512], bodies_s[1024];
 } case_t;
 
@@ -51,13 +51,18 @@ static int started_log[MAXREC], nstarted, done_log[MAXREC], ndone, refused_log[M
 static int g_oracle_bad;
 
 static void oracle(const char* msg) { printf("O %s\n", msg); g_oracle_bad = 1; }
+static int g_partial_resize, g_sizeof_said; static size_t g_partial_gap;
 
 /* ---------- accounting allocator handed to POOL_create_advanced: what the pool really holds ----------
  * (one thread runs at a time under the scheduler, so plain counters are enough) */
 typedef struct { size_t size; size_t pad; } zv_hdr;
 static size_t g_live_bytes; static long g_live_blocks;
+static __thread int t_in_resize, t_alloc_faults; static int g_alloc_countdown;   /* failure injection: see run_prog ('r') and run_fcase */
 static void* zv_acct_alloc(void* o, size_t n) {
-    zv_hdr* h = (zv_hdr*)malloc(sizeof(zv_hdr) + n); (void)o;
+    zv_hdr* h; (void)o;
+    if (g_alloc_countdown > 0 && --g_alloc_countdown == 0) return NULL;
+    if (t_in_resize && zv_step_fault(2) == 1) { t_alloc_faults++; return NULL; }   /* the schedule says: this POOL_resize fails to allocate */
+    h = (zv_hdr*)malloc(sizeof(zv_hdr) + n);
     if (!h) return NULL;
     h->size = n; h->pad = 0x5a5a5a5au; g_live_bytes += n; g_live_blocks++; return h + 1;
 }
@@ -116,7 +121,12 @@ static void step_oracles(void) {
     p = pending_count(c);
     if (c->queueSize > 1 ? p > c->queueSize - 1 : p > 1) oracle("ring: more pending entries than the queue holds");
     if (c->threadLimit < 1 || c->threadLimit > c->threadCapacity) oracle("threadLimit outside 1..threadCapacity");
-    if (POOL_sizeof(c) != g_live_bytes) oracle("POOL_sizeof differs from the bytes the pool holds");
+    if (POOL_sizeof(c) != g_live_bytes) {
+        /* after a POOL_resize whose k-th pthread_create failed the thread array has numThreads entries and threadCapacity < numThreads */
+        if (g_partial_resize && POOL_sizeof(c) < g_live_bytes && g_live_bytes - POOL_sizeof(c) <= g_partial_gap) {
+            if (!g_sizeof_said) { oracle("POOL_sizeof under-reports the thread array after a POOL_resize in which pthread_create failed"); g_sizeof_said = 1; }
+        } else oracle("POOL_sizeof differs from the bytes the pool holds");
+    }
     if (!c->shutdown) {
         /* no lost wake-up on queuePopCond: min(pending, limit-busy) workers are about to look at the queue */
         for (t = C.K; t < nt; t++) { void* o; zv_status s = zv_thread_status(t, &o); if (s != ZS_COND && s != ZS_DONE && s != ZS_NONE) awake++; else if (s == ZS_COND && o != (void*)&c->queuePopCond) awake++; }
@@ -233,7 +243,13 @@ static void run_prog(const prog_t* p) {
             if (!g_ctx->queueEmpty || g_ctx->numThreadsBusy) oracle("POOL_joinJobs returned with a non-empty queue or busy threads");
             check_all_finished("POOL_joinJobs returned");
             break;
-        case 'r': { int const r = POOL_resize(g_ctx, (size_t)p->ops[i].arg); if (r != (p->ops[i].arg == 0)) oracle("POOL_resize: unexpected return value"); break; }
+        case 'r': {
+            int const f0 = zv_thread_faults() + t_alloc_faults; int r, failed; size_t const n = (size_t)p->ops[i].arg;
+            t_in_resize = 1; r = POOL_resize(g_ctx, n); t_in_resize = 0;
+            failed = (zv_thread_faults() + t_alloc_faults) != f0;       /* the schedule injected an allocation / pthread_create failure into this call */
+            if (r != (n == 0 || failed)) oracle(failed ? "POOL_resize returned 0 although thread creation failed" : "POOL_resize: unexpected return value");
+            if (failed) { g_partial_resize = 1; if (n * sizeof(ZSTD_pthread_t) > g_partial_gap) g_partial_gap = n * sizeof(ZSTD_pthread_t); }
+            break; }
         default: break;
         }
     }
@@ -246,6 +262,7 @@ static void run_case(void) {   /* in the forked child */
     zp.sched_len = C.sched_len; memcpy(zp.sched_t, C.sched_t, sizeof(int) * (size_t)C.sched_len); memcpy(zp.sched_w, C.sched_w, sizeof(int) * (size_t)C.sched_len);
     zp.policy = C.policy ? ZV_POLICY_NOPREEMPT : ZV_POLICY_RANDOM; zp.seed = C.seed; zp.stay_pct = C.stay;
     zp.first_worker_tid = C.K; zp.on_step = on_step; zp.on_stuck = on_stuck;
+    zp.fault_enable = 1; zp.fault_pct = C.fault;
     {   /* all threads of a run on one CPU: the baton hand-over is then a plain context switch (no cross-CPU wake-up) */
         cpu_set_t set; long ncpu = sysconf(_SC_NPROCESSORS_ONLN); CPU_ZERO(&set); CPU_SET((int)((unsigned long)getppid() % (unsigned long)(ncpu > 0 ? ncpu : 1)), &set);
         sched_setaffinity(0, sizeof set, &set);
@@ -309,6 +326,9 @@ static int parse_case(char* line) {
         else if (!strcmp(tok, "seed")) C.seed = strtoull(v, NULL, 10);
         else if (!strcmp(tok, "stay")) C.stay = atoi(v);
         else if (!strcmp(tok, "explore")) C.explore = atoi(v);
+        else if (!strcmp(tok, "fault")) C.fault = atoi(v);
+        else if (!strcmp(tok, "cfail")) C.cfail = atoi(v);
+        else if (!strcmp(tok, "afail")) C.afail = atoi(v);
         else if (!strcmp(tok, "maxruns")) C.maxruns = atol(v);
         else if (!strcmp(tok, "sched")) {
             char* q = v; C.sched_len = 0;
@@ -321,6 +341,7 @@ static int parse_case(char* line) {
             }
         }
     }
+    if (C.K < 1 && (C.cfail || C.afail)) C.K = 1;      /* FCASE lines carry no programs */
     return (C.K >= 1 && C.threads >= 1) ? 0 : -1;
 }
 
@@ -395,9 +416,40 @@ static void explore(void) {
     free(stack);
 }
 
+/* FCASE threads=3 queue=1 cfail=2 afail=0 : POOL_create_advanced with the cfail-th pthread_create / the afail-th allocation failing
+ * (no model run): it must return NULL, give every byte back and leave no thread behind; then a second, fault-free creation works */
+static void run_fcase(void) {
+    zv_params zp; int t; ZSTD_customMem cm; POOL_ctx* ctx;
+    memset(&zp, 0, sizeof zp); zp.policy = ZV_POLICY_NOPREEMPT; zp.first_worker_tid = 1; zp.on_stuck = on_stuck;
+    signal(SIGSEGV, on_crash); signal(SIGBUS, on_crash); signal(SIGFPE, on_crash); signal(SIGABRT, on_crash);
+    C.K = 1; g_freed = 1;
+    zv_sched_begin(&zp);
+    cm.customAlloc = zv_acct_alloc; cm.customFree = zv_acct_free; cm.opaque = NULL;
+    g_alloc_countdown = C.afail; zv_fail_create_at(C.cfail);
+    ctx = POOL_create_advanced((size_t)C.threads, (size_t)C.queue, cm);
+    g_alloc_countdown = 0; zv_fail_create_at(0);
+    if (ctx != NULL) { if ((C.afail >= 1 && C.afail <= 3) || (C.cfail >= 1 && C.cfail <= C.threads)) oracle("POOL_create_advanced succeeded although an allocation / a pthread_create failed"); POOL_free(ctx); }
+    if (g_live_bytes != 0 || g_live_blocks != 0) oracle("POOL_create_advanced that failed (or POOL_free) leaked memory");
+    for (t = 1; t < zv_nthreads(); t++) if (zv_thread_status(t, NULL) != ZS_DONE) oracle("a worker thread of a pool whose creation failed is still alive");
+    ctx = POOL_create_advanced((size_t)C.threads, (size_t)C.queue, cm);
+    if (!ctx) oracle("fault-free POOL_create_advanced failed"); else { if (POOL_sizeof(ctx) != g_live_bytes) oracle("POOL_sizeof differs from the bytes the pool holds"); POOL_free(ctx); }
+    if (g_live_bytes != 0 || g_live_blocks != 0) oracle("POOL_free leaked memory of the pool");
+    zv_sched_end();
+    printf("E END\n"); fflush(stdout); _exit(0);
+}
+
 int main(void) {
     static char line[65536];
     while (fgets(line, sizeof line, stdin)) {
+        if (!strncmp(line, "FCASE", 5)) {
+            pid_t pid; int st;
+            if (parse_case(line + 5)) { printf("BADCASE\n"); continue; }
+            printf("FCASE threads=%d queue=%d cfail=%d afail=%d\n", C.threads, C.queue, C.cfail, C.afail); fflush(stdout);
+            pid = fork(); if (pid == 0) { run_fcase(); _exit(0); }
+            waitpid(pid, &st, 0);
+            if (!WIFEXITED(st) || WEXITSTATUS(st) != 0) printf("O abnormal termination (status 0x%x)\nE CRASH\n", st);
+            fflush(stdout); continue;
+        }
         if (strncmp(line, "CASE", 4)) continue;
         if (parse_case(line + 4)) { printf("BADCASE\n"); continue; }
         if (C.explore >= 0) explore();
